@@ -227,6 +227,12 @@ func (g *c15Gen) txGen(r *kernel.Run, _ *kernel.Rng) *kernel.Tx {
 	if rng.P(0.45) {
 		// publish a payload link (colliding keys on purpose)
 		key := hexHash(refID)
+		switch rng.Intn(8) {
+		case 0:
+			key = strings.ToUpper(key) // another spelling of the same hex digest is another key
+		case 1:
+			key = key + " "
+		}
 		return sigMsgTx(creator, &sigtypes.MsgPublishReferencePayloadLink{Creator: kernel.ActorBech(creator), Key: key, Value: link}, "publish")
 	}
 	rec, kind := g.record(addr, refID, link)
